@@ -8,27 +8,77 @@ package sync2
 //@ ghost field (Map) Dom map[K]bool
 //@ ghost field (Map) Val map[K]V
 
-//@ func (*Map).Load
-//@ trusted
+// MapRep: the typed view (Dom, Val) is the untyped sync.Map's content seen through the conversion to `any`; stored values
+// are never nil interfaces (the typed Load would panic on them). It is the object invariant of Map: the field m is
+// private and Dom / Val are only written by the methods below.
+// Every method is `linearizable`: verified under arbitrary interference between its atomic steps, with its
+// postcondition relative to the state at its last atomic step (C20: every concurrent history is equivalent to a
+// sequential one in which each call takes effect at that step).
+
+//@ func New
+//@ property C20 C04
 //@ assigns nothing
-//@ ensures [load-dom] loaded == m.Dom[key]
-//@ ensures [load-val] implies(loaded, v == m.Val[key])
+//@ ensures [empty] result != nil && fresh(result) && forall(k, K, !result.Dom[k])
+
+//@ func (*Map).Load
+//@ property C20 C04
+//@ linearizable
+//@ shared m.Dom, m.Val, m.m.SDom, m.m.SVal
+//@ object-invariant [rep] forall(k, K, m.Dom[k] == m.m.SDom[toany(k)] && implies(m.Dom[k], toany(m.Val[k]) == m.m.SVal[toany(k)] && toany(m.Val[k]) != nil))
+//@ assigns nothing
+//@ ensures [load-dom] loaded == old(m.Dom[key])
+//@ ensures [load-val] implies(loaded, v == old(m.Val[key]))
 //@ ensures [load-miss] implies(!loaded, v == zero(V))
+//@ ensures [unchanged] m.Dom == old(m.Dom) && m.Val == old(m.Val)
 
 //@ func (*Map).Store
-//@ trusted
-//@ assigns m.Dom, m.Val
+//@ property C20 C04
+//@ linearizable
+//@ shared m.Dom, m.Val, m.m.SDom, m.m.SVal
+//@ object-invariant [rep] forall(k, K, m.Dom[k] == m.m.SDom[toany(k)] && implies(m.Dom[k], toany(m.Val[k]) == m.m.SVal[toany(k)] && toany(m.Val[k]) != nil))
+//@ requires [no-nil-interface] toany(value) != nil
+//@ assigns m.Dom, m.Val, m.m.SDom, m.m.SVal
 //@ ensures [store-dom] m.Dom == store(old(m.Dom), key, true)
 //@ ensures [store-val] m.Val == store(old(m.Val), key, value)
+//@ ghost after call Store: m.Dom = store(m.Dom, key, true)
+//@ ghost after call Store: m.Val = store(m.Val, key, value)
 
 //@ func (*Map).Delete
-//@ trusted
-//@ assigns m.Dom
+//@ property C20 C04
+//@ linearizable
+//@ shared m.Dom, m.Val, m.m.SDom, m.m.SVal
+//@ object-invariant [rep] forall(k, K, m.Dom[k] == m.m.SDom[toany(k)] && implies(m.Dom[k], toany(m.Val[k]) == m.m.SVal[toany(k)] && toany(m.Val[k]) != nil))
+//@ assigns m.Dom, m.m.SDom
 //@ ensures [delete-dom] m.Dom == store(old(m.Dom), key, false)
+//@ ghost after call Delete: m.Dom = store(m.Dom, key, false)
 
 //@ func (*Map).LoadOrStore
-//@ trusted
-//@ assigns m.Dom, m.Val
+//@ property C20 C04
+//@ linearizable
+//@ shared m.Dom, m.Val, m.m.SDom, m.m.SVal
+//@ object-invariant [rep] forall(k, K, m.Dom[k] == m.m.SDom[toany(k)] && implies(m.Dom[k], toany(m.Val[k]) == m.m.SVal[toany(k)] && toany(m.Val[k]) != nil))
+//@ requires [no-nil-interface] toany(value) != nil
+//@ assigns m.Dom, m.Val, m.m.SDom, m.m.SVal
 //@ ensures [los-loaded] result1 == old(m.Dom[key])
 //@ ensures [los-dom] m.Dom == store(old(m.Dom), key, true)
 //@ ensures [los-val] m.Val == ite(old(m.Dom[key]), old(m.Val), store(old(m.Val), key, value)) && result0 == m.Val[key]
+//@ ghost after call LoadOrStore: m.Val = ite(m.Dom[key], m.Val, store(m.Val, key, value))
+//@ ghost after call LoadOrStore: m.Dom = store(m.Dom, key, true)
+
+// LoadOrStoreFn: like LoadOrStore with a lazily computed value. The producer (A-CALLBACK) builds a value; it does not
+// touch this map.
+//@ func (*Map).LoadOrStoreFn#f
+//@ assigns nothing
+//@ ensures [produces-a-value] toany(result) != nil
+
+//@ func (*Map).LoadOrStoreFn
+//@ property C20 C04
+//@ linearizable
+//@ shared m.Dom, m.Val, m.m.SDom, m.m.SVal
+//@ object-invariant [rep] forall(k, K, m.Dom[k] == m.m.SDom[toany(k)] && implies(m.Dom[k], toany(m.Val[k]) == m.m.SVal[toany(k)] && toany(m.Val[k]) != nil))
+//@ requires [producer] f != nil
+//@ assigns m.Dom, m.Val, m.m.SDom, m.m.SVal
+//@ ensures [los-loaded] result1 == old(m.Dom[key])
+//@ ensures [los-dom] m.Dom == store(old(m.Dom), key, true)
+//@ ensures [los-kept] implies(old(m.Dom[key]), m.Val == old(m.Val) && result0 == old(m.Val[key]))
+//@ ensures [los-stored] implies(!old(m.Dom[key]), m.Val == store(old(m.Val), key, result0))
